@@ -9,7 +9,7 @@ ID = "C19"
 RULE = ("seeded expression trees (depth <= 5) over 1..3 counting stub leaves with scripted dyadic draws and real constants (int, float, "
         "numpy float) on either side of + - * / and unary minus, sample sizes 1..5; plus the non-random sample() helper on scalars / "
         "sequences of matching and non-matching length; plus trees over seeded scipy.stats leaves compared with the same numpy "
-        "operations applied to re-drawn arrays; non-trivial = tree with >= 2 operators incl. a non-commutative one with a constant "
+        "operations applied to re-drawn arrays; 1..3 successive draws from the same expression object (each must equal the expression on its own leaf draws, earlier results unchanged); non-trivial = tree with >= 2 operators incl. a non-commutative one with a constant "
         "or two leaf occurrences; distinct = distinct (tree, draws, size)")
 ASSUMPTIONS = [
     "denominators are non-zero at every element (numpy gives inf/nan with a warning; excluded explicitly, the model driver refuses such inputs)",
@@ -72,15 +72,16 @@ def gen(rng, tier):
         e = gen_expr(rng, rng.randint(1, 5), nleaves)
         m = rng.randint(1, 5)
         o = occ(e, {})
+        rounds = rng.choice([1, 1, 2, 3])   # repeated draws from the same expression object
         draws = []
         for i in range(nleaves):
             calls = []
-            for _ in range(o.get(i, 0) + 1):
+            for _ in range(o.get(i, 0) * rounds + 1):
                 # mostly powers of two (so that leaf denominators stay exact), some other dyadics
                 calls.append([fs(Fraction(rng.choice([1, 2, 4, -1, -2, 8]) if rng.random() < 0.6 else rng.randint(-12, 12),
                                           rng.choice([1, 2, 4]))) for _ in range(m)])
             draws.append(calls)
-        yield dict(mode="stub", expr=e, nleaves=nleaves, m=m, draws=draws)
+        yield dict(mode="stub", expr=e, nleaves=nleaves, m=m, draws=draws, rounds=rounds)
 
 
 def shrink(case):
@@ -95,6 +96,8 @@ def shrink(case):
             if isinstance(s, list) and s and isinstance(s[0], str) and s[0].isupper():
                 yield s
                 yield from subs(s)
+    if case.get("rounds", 1) > 1:
+        return   # the scripted draws are laid out per round for this tree; keep the case as generated
     for s in subs(e):
         yield dict(case, expr=s)
     if case["m"] > 1:
@@ -250,6 +253,7 @@ def run_case(case, drv):
             smp = build_py(e, leaves)
             np.random.seed(case["seed"])
             got = smp.rvs(m) if isinstance(smp, sampling.SimpleSampler) else None
+            got_again = smp.rvs(m) if got is not None else None
         except Exception as ex:  # noqa
             res.fail("rvs:raises", f"building/sampling {tokens(e)} raised {ex!r}")
             return res
@@ -259,6 +263,9 @@ def run_case(case, drv):
         np.random.seed(case["seed"])
         with np.errstate(all="ignore"):
             want = eval_np(e, dists, m)
+            want_again = eval_np(e, dists, m)
+        if np.shape(got_again) != (m,) or not np.array_equal(np.asarray(got_again), want_again, equal_nan=True):
+            res.fail("rvs:value-real-second-draw", f"{tokens(e)} seed {case['seed']}: second draw from the same object {got_again} != {want_again}")
         if np.shape(got) != (m,):
             res.fail("rvs:shape", f"shape {np.shape(got)} != ({m},)")
         elif not np.array_equal(np.asarray(got), want, equal_nan=True):
@@ -278,12 +285,22 @@ def run_case(case, drv):
             assert size == m
             return arr
 
+    o = occ(e, {})
+    rounds = case.get("rounds", 1)
+
+    def round_draws(r):
+        return [calls[r * o.get(i, 0):(r + 1) * o.get(i, 0)] + calls[-1:] for i, calls in enumerate(draws)]
+
+    def request(dr):
+        return f"rvs {m} {' '.join(tokens(e))} {len(dr)} " + " ".join(
+            str(len(calls)) + " " + " ".join(" ".join(c) for c in calls) for calls in dr)
+    wants = []
     try:
-        want = eval_exact(e, draws, {}, m)
+        for r in range(rounds):
+            wants.append(eval_exact(e, round_draws(r), {}, m))
     except ZeroDiv:
         res.features.append("skipped:zero-denominator")
-        rep = drv.ask(f"rvs {m} {' '.join(tokens(e))} {len(draws)} " + " ".join(
-            str(len(calls)) + " " + " ".join(" ".join(c) for c in calls) for calls in draws))
+        rep = drv.ask(request(round_draws(len(wants))))
         if rep != "err:zerodiv":
             res.disagree("zero-denominator guard", "zero-div", rep)
         res.nontrivial = False
@@ -292,36 +309,49 @@ def run_case(case, drv):
         res.features.append("skipped:not-float-exact")
         res.nontrivial = False
         return res
+    want = wants[0]
+    res.features.append(f"rounds:{rounds}")
     leaves = [Stub(i) for i in range(case["nleaves"])]
     try:
         smp = build_py(e, leaves)
-        got = smp.rvs(m)
-        impl = ("ok", [F(x) for x in np.asarray(got).ravel()], [lf.calls for lf in leaves], np.shape(got))
     except Exception as ex:  # noqa
-        impl = (core.err_kind(ex), repr(ex))
-        res.fail("rvs:raises", f"sampling {tokens(e)} raised {ex!r}")
-    rep = drv.ask(f"rvs {m} {' '.join(tokens(e))} {len(draws)} " + " ".join(
-        str(len(calls)) + " " + " ".join(" ".join(c) for c in calls) for calls in draws))
-    head, groups = core.split_reply(rep)
-    if head != impl[0]:
-        res.disagree("rvs status", impl, head)
+        res.fail("rvs:raises", f"building {tokens(e)} raised {ex!r}")
         return res
-    marr = [Fraction(t) for t in groups[0][1:]]
-    mcnt = [int(t) for t in groups[1][1:]]
-    if groups[2][0] != "1":
-        res.disagree("model self-check rvs(build e) = evalE e", "-", rep)
-    if impl[1] != marr:
-        res.disagree("rvs array", impl[1], marr)
-    if impl[2] != mcnt:
-        res.disagree("leaf draw counts", impl[2], mcnt)
-    o = occ(e, {})
-    if impl[3] != (m,):
-        res.fail("rvs:shape", f"shape {impl[3]} != ({m},)")
-    if impl[1] != want:
-        res.fail("rvs:value", f"{tokens(e)}: got {[fs(x) for x in impl[1]]}, expression on the leaf draws gives {[fs(x) for x in want]}")
-    if impl[2] != [o.get(i, 0) for i in range(case["nleaves"])]:
-        res.fail("rvs:draw-count", f"leaf draw counts {impl[2]} != occurrences {[o.get(i, 0) for i in range(case['nleaves'])]}")
+    kept = []
+    for r in range(rounds):
+        before = [lf.calls for lf in leaves]
+        try:
+            got = smp.rvs(m)
+            impl = ("ok", [F(x) for x in np.asarray(got).ravel()], [lf.calls - b for lf, b in zip(leaves, before)], np.shape(got))
+            kept.append((got, impl[1]))
+        except Exception as ex:  # noqa
+            impl = (core.err_kind(ex), repr(ex))
+            res.fail("rvs:raises", f"sampling {tokens(e)} (draw #{r + 1}) raised {ex!r}")
+        rep = drv.ask(request(round_draws(r)))
+        head, groups = core.split_reply(rep)
+        if head != impl[0]:
+            res.disagree("rvs status", impl, head)
+            return res
+        marr = [Fraction(t) for t in groups[0][1:]]
+        mcnt = [int(t) for t in groups[1][1:]]
+        if groups[2][0] != "1":
+            res.disagree("model self-check rvs(build e) = evalE e", "-", rep)
+        if impl[1] != marr:
+            res.disagree(f"rvs array (draw #{r + 1} from the same object)", impl[1], marr)
+        if impl[2] != mcnt:
+            res.disagree("leaf draw counts", impl[2], mcnt)
+        if impl[3] != (m,):
+            res.fail("rvs:shape", f"shape {impl[3]} != ({m},)")
+        if impl[1] != wants[r]:
+            res.fail("rvs:value", f"{tokens(e)} draw #{r + 1} from the same expression object: got {[fs(x) for x in impl[1]]}, "
+                                  f"expression on the leaf draws gives {[fs(x) for x in wants[r]]}")
+        if impl[2] != [o.get(i, 0) for i in range(case["nleaves"])]:
+            res.fail("rvs:draw-count", f"leaf draw counts {impl[2]} != occurrences {[o.get(i, 0) for i in range(case['nleaves'])]}")
+    for r, (arr, vals) in enumerate(kept):
+        if [F(x) for x in np.asarray(arr).ravel()] != vals:
+            res.fail("rvs:returned-array-changed", f"{tokens(e)}: the array returned by draw #{r + 1} was changed by a later draw")
     # generic helper on a sampler
+    draws = round_draws(0)
     leaves2 = [Stub(i) for i in range(case["nleaves"])]
     smp2 = build_py(e, leaves2)
     try:
